@@ -335,6 +335,8 @@ def compare_supports(events, want, lang, mode):
             if e[0] == k and e[2] == v and (s_ is None or e[1] == s_):
                 if c and c[0] == "abstract" and e[3] is not None and e[3] != (c[1], lang.d - c[2]):
                     continue  # same option and support, but logged for another position
+                if c and c[0] == "union" and e[3] is not None and e[3][0] is not None:
+                    continue  # a decision logged for a class symbol is not a union decision
                 hit = i
                 break
         if hit is None:
@@ -349,6 +351,8 @@ def compare_supports(events, want, lang, mode):
         if not cand:
             continue
         # prefer the logged decision taken for the same symbol at the same level (pairing hint from the decider call)
+        if c and c[0] == "union":
+            cand = [e for e in cand if e[3] is None or e[3][0] is None] or cand
         exact = [e for e in cand if c and c[0] == "abstract" and e[3] == (c[1], lang.d - c[2])]
         e = (exact or cand)[0]
         if k == "randint":
